@@ -18,7 +18,7 @@ pub struct Case {
 }
 
 fn strategy() -> BoxedStrategy<Case> {
-    (1usize..40, 1usize..=6)
+    (1usize..40, prop_oneof![400 => 1usize..=6, 1 => prop::sample::select(vec![255usize, 256, 257, 300])])
         .prop_flat_map(|(n, np)| {
             // number of non-Have entries: forced around the threshold when possible
             let target_missing = prop_oneof![
@@ -92,6 +92,7 @@ pub fn check(c: &Case) -> Outcome {
     o.class_if(missing == 10, "missing=10");
     o.class_if(missing == 11, "missing=11");
     o.class_if(candidates.is_empty(), "no-candidate");
+    o.class_if(c.peers.len() >= 255, ">=255-peers");
     o.class_if(missing < 10 && c.statuses.iter().any(|s| (1..=3).contains(s)), "end-game-with-reserved");
     o.class_if(missing >= 10 && c.statuses.iter().any(|s| (1..=3).contains(s)), "normal-with-reserved");
 
